@@ -27,7 +27,7 @@ let () = register "qreplay" (fun args -> match args with
             | [tid; h; t; pend; item] ->
                 let tid = int_of_string tid in
                 let s = !st in
-                let mh = q_int_of_nat (q_head (q_sh s)) and mt = q_int_of_nat (q_tail (q_sh s)) in
+                let mh = q_int_of_nat s.q_sh.q_head and mt = q_int_of_nat s.q_sh.q_tail in
                 if mh <> int_of_string h || mt <> int_of_string t then
                   fail "head/tail: implementation %s/%s model %d/%d" h t mh mt;
                 String.iteri (fun i c ->
@@ -46,9 +46,9 @@ let () = register "qreplay" (fun args -> match args with
                  | 'W' | 'V' | 'R' | 'S' | 'L' | 'U' as c ->
                      if c = 'U' then begin
                        let mi =
-                         if tid = 0 then (match q_prod s with QPut (_, idx) -> string_of_int (q_int_of_nat idx) | QFin _ -> "?")
-                         else (match List.nth_opt (q_cons s) (tid - 1) with
-                               | Some cs -> (match qc_res cs with Some f -> string_of_int (q_int_of_nat f) | None -> "-")
+                         if tid = 0 then (match s.q_prod with QPut (_, idx) -> string_of_int (q_int_of_nat idx) | QFin _ -> "?")
+                         else (match List.nth_opt s.q_cons (tid - 1) with
+                               | Some cs -> (match cs.qc_res with Some f -> string_of_int (q_int_of_nat f) | None -> "-")
                                | None -> "?") in
                        if mi <> item then fail "thread %d leaves the critical section with item %s, model %s" tid item mi
                      end;
@@ -61,7 +61,7 @@ let () = register "qreplay" (fun args -> match args with
         with Failure m -> m in
       let s = !st in
       let got = String.concat "|" (List.map (fun c ->
-        String.concat "," (List.map (fun f -> string_of_int (q_int_of_nat f)) (qc_got c))) (q_cons s)) in
+        String.concat "," (List.map (fun f -> string_of_int (q_int_of_nat f)) c.qc_got)) s.q_cons) in
       let en = List.length (qenabled_threads cfg files s) in
       let res =
         if res <> "" then res
@@ -71,7 +71,7 @@ let () = register "qreplay" (fun args -> match args with
         else "" in
       if res <> "" then Printf.sprintf "mismatch step=%d %s" !k res
       else Printf.sprintf "ok steps=%d fin=%s terminal=%b enabled=%d used=%d unused=%d got=%s" !k !fin (qterminal s) en
-             (q_int_of_nat (q_used (q_sh s))) (q_int_of_nat (q_unused (q_sh s))) got
+             (q_int_of_nat s.q_sh.q_used) (q_int_of_nat s.q_sh.q_unused) got
   | _ -> "usage")
 
 (* qexplore <nfiles> <nthreads> <seed> <walks>: random walks in the model (used when the proofs no
